@@ -6,7 +6,7 @@ LEVEL = ('cif_parse() is loop-free (two memcmp of constant length): its contract
          'expression of prefer_cif2, force_default_encoding and the stream prefix - is proved by CBMC for ALL option values and ALL '
          'first 16 bytes / stream lengths: a complete proof, no bound.')
 UNDECIDED = ['that ICU recognises exactly the byte-order marks assumed in contracts/ciffile_parse.h and decodes every encoding to the same text',
-             'second stage inside cif_parse_internal (version comment of the decoded text, BOM position, CIF_WRONG_ENCODING report): separate job']
+             'a BOM later in the stream (handled by the scanner proper, not under contract)']
 ICU = 'assumed contracts for fread/ferror, ucnv_detectUnicodeSignature (exactly the UTF-8/16/32 BOMs), ucnv_open/getName/setToUCallBack/close, cif_create, cif_parse_internal (records its arguments)'
 
 
@@ -15,10 +15,19 @@ def jobs():
          'cif_create', 'cif_parse_internal']
     return [
         Job('cif_parse_stage1', 'ciffile_parse_h.c', entry='harness_cif_parse', enforce='cif_parse', replace=R, tus=['ciffile.c'],
-            reach=['v2', 'v1', 'v-by-comment', 'v-by-comment-default2', 'no-parse'], min_obligations=20, trusted=[ICU], timeout=900, mem_gb=16, add_library=True,
+            reach=['v2', 'v1', 'v-by-comment', 'v-by-comment-default2', 'no-parse'], min_obligations=20, trusted=[ICU], timeout=900, mem_gb=16, add_library=True, replay=False,
             clauses=['version code = documented table of (prefer_cif2, force_default_encoding, BOM, version comment)',
                      'encoding = signature / UTF-8 for CIF 2.0 / named or system default, force_default_encoding overrides',
                      'not_utf8 flag truthful', 'modifiers clamped']),
+        Job('cif_parse_internal_stage2', 'parser_init_h.c', entry='harness_parse_internal', enforce='cif_parse_internal', tus=['parser.c'],
+            replace=['get_first_char', 'get_more_chars', 'scan_to_ws', 'u_strncmp_72', 'parse_cif'], unwind=170, text_ui=True,
+            flags=['--malloc-may-fail', '--malloc-fail-null'],
+            note='--unwind 170 with unwinding assertions: every loop of INIT_V2_SCANNER has a constant bound (<= 160) or walks an option string of at most 2 characters',
+            reach=['as-cif2', 'as-cif1', 'wrong-encoding', 'bom-in-cif1'], min_obligations=50, timeout=1800, mem_gb=32, replay=False,
+            trusted=['assumed contracts of get_first_char / get_more_chars / scan_to_ws / u_strncmp / parse_cif (contracts/parser_init.h): they deliver the ghost-chosen first characters and token'],
+            clauses=['final version = f(initial version code, version comment of the decoded text)', 'CIF 1.1 table switched in exactly for version 1',
+                     'CIF_WRONG_ENCODING reported before parsing iff CIF 2.0 and not UTF-8 (any non-zero flag)', 'BOM only as first character; DISALLOWED_CHAR under CIF 1.1',
+                     'extra_ws / extra_eol option strings: no out-of-bounds table write for any byte value']),
     ]
 
 
